@@ -26,6 +26,10 @@
   (rounding/convergence: property C01).  The oracle checks it on the real class against a long double Jacobi SVD and has found two
   input classes where it fails (recorded, not hidden): small-norm matrices (absolute breakdown thresholds applied to `AᵀA`, whose
   norm is `‖A‖²`: finding F12) and a missing re-orthogonalisation of the first residual in `Arnoldi::init` (finding F20).
+  (C) The object model, regenerated from the clang AST of the header on every run (`Gen.SVDMem`, xlate/tgt_c16.py) and decided by the
+      kernel: which members are handles / pointers and who owns them (`c16_members_nonowning`), which members each accessor writes
+      (`c16_accessor_writes`), that `compute()` empties the cache first (`c16_compute_resets_cache`: the source-level twin of
+      `c16_cache_invalidated`, which is about the model), and the state of the copy operations (`c16_copy_operations`).
   (A) and (B) are connected by `c16_operator`, `c16_model_triplet_tall/wide` (the model's explicit loops at exact arithmetic ARE
   Mathlib's `mulVec`), `c16_order_argsort` (C18 discharges the sort hypothesis) and `c16_latest_equals_fresh` (C06).
 -/
@@ -34,6 +38,7 @@ import SpectraVerif.Proofs.C16Order
 import SpectraVerif.Proofs.C16Sort
 import SpectraVerif.Proofs.C16Bridge
 import SpectraVerif.Proofs.C16Nonint
+import SpectraVerif.Proofs.C16Mem
 import Mathlib.Analysis.Real.Sqrt
 
 namespace C16
@@ -401,5 +406,113 @@ end toy
 /-- `x ↦ Real.sqrt (max x 0)` is monotone: the `hmono` hypothesis of `c16_order` holds for the exact-arithmetic instance -/
 theorem c16_order_sqrt_mono (a b : ℝ) (h : a ≤ b) : Real.sqrt (max a 0) ≤ Real.sqrt (max b 0) :=
   Real.sqrt_le_sqrt (max_le_max h (le_refl 0))
+
+/-! ### object model: regenerated from the clang AST on every run (`Gen.SVDMem`, xlate/tgt_c16.py), decided by the kernel -/
+
+section objectmodel
+open C16Mem
+
+/-- **What the objects keep of the caller's arguments** (blind spot "values and objects of the caller change or die between
+    construction and later calls").  Of ALL data members of PartialSVDSolver, SVDTallMatOp, SVDWideMatOp (SVDMatOp has none), the
+    only ones not held by value are
+      * the three `m_mat`: `const Eigen::Ref<const MatrixType>` handles to the USER's matrix — allowed by the property (the matrix
+        must outlive the solver and is read at every `compute()` / computed-side accessor call; the harness checks that the handle
+        points INTO the user's storage for every view it passes), initialised from the constructor parameter `mat` and never
+        written again (they are `const`);
+      * `m_op`, `m_eigs`: raw pointers that are OWNING — every value they are ever given is a `new` expression in the constructor
+        (`*m_op` is only handed to the inner solver's constructor, the `catch` handler deletes `m_op`), the destructor deletes both,
+        and nothing else touches them except `m_eigs->init()` / `m_eigs->compute(…)` in `compute()`.
+    `ncomp`, `ncv`, `maxit`, `tol`, `nu`, `nv`, `k` are taken by value; the only reference parameters are the constructors' `mat`
+    (plus `perform_op`'s raw in/out arrays, used only during the call); the sizes `m_m`, `m_n`, `m_dim`, and the length of `m_cache`
+    are copied out of `mat` at construction.  A new reference / pointer member, a parameter kept by reference or a handle
+    re-seated later changes the regenerated table. -/
+theorem c16_members_nonowning :
+    ((members.filter (fun m => m.kind != "value")).map (fun m => (m.cls, m.name, m.type, m.kind, m.isConst)) =
+      [("SVDTallMatOp", "m_mat", "const Eigen::Ref<const MatrixType>", "handle", true),
+       ("SVDWideMatOp", "m_mat", "const Eigen::Ref<const MatrixType>", "handle", true),
+       ("PartialSVDSolver", "m_mat", "const Eigen::Ref<const MatrixType>", "handle", true),
+       ("PartialSVDSolver", "m_op", "SVDMatOp<typename MatrixType::Scalar> *", "pointer", false),
+       ("PartialSVDSolver", "m_eigs", "SymEigsSolver<SVDMatOp<typename MatrixType::Scalar>> *", "pointer", false)]) ∧
+    writesTo "SVDTallMatOp" "m_mat" = [("SVDTallMatOp(ConstGenericMatrix &)", "init", "mat", "", false)] ∧
+    writesTo "SVDWideMatOp" "m_mat" = [("SVDWideMatOp(ConstGenericMatrix &)", "init", "mat", "", false)] ∧
+    writesTo "PartialSVDSolver" "m_mat" = [("PartialSVDSolver(ConstGenericMatrix &, Index, Index)", "init", "mat", "", false)] ∧
+    writesTo "PartialSVDSolver" "m_op" =
+      [("PartialSVDSolver(ConstGenericMatrix &, Index, Index)", "=", "new SVDTallMatOp<Scalar, MatrixType>(mat)", "(m_m > m_n)", false),
+       ("PartialSVDSolver(ConstGenericMatrix &, Index, Index)", "=", "new SVDWideMatOp<Scalar, MatrixType>(mat)", "not (m_m > m_n)", false),
+       ("PartialSVDSolver(ConstGenericMatrix &, Index, Index)", "*", "new SymEigsSolver<SVDMatOp<Scalar>>(*m_op, ncomp, ncv)", "", false),
+       ("PartialSVDSolver(ConstGenericMatrix &, Index, Index)", "delete", "", "catch", false),
+       ("~PartialSVDSolver()", "delete", "", "", false)] ∧
+    writesTo "PartialSVDSolver" "m_eigs" =
+      [("PartialSVDSolver(ConstGenericMatrix &, Index, Index)", "=", "new SymEigsSolver<SVDMatOp<Scalar>>(*m_op, ncomp, ncv)", "", false),
+       ("~PartialSVDSolver()", "delete", "", "", false),
+       ("compute(Index, Scalar)", "->init", "", "", false),
+       ("compute(Index, Scalar)", "->compute", "SortRule::LargestAlge, maxit, tol", "", false)] ∧
+    nonValueParams =
+      [("SVDMatOp", "perform_op(const Scalar *, Scalar *) const", "x_in", "pointer"), ("SVDMatOp", "perform_op(const Scalar *, Scalar *) const", "y_out", "pointer"),
+       ("SVDTallMatOp", "SVDTallMatOp(ConstGenericMatrix &)", "mat", "reference"),
+       ("SVDTallMatOp", "perform_op(const Scalar *, Scalar *) const", "x_in", "pointer"), ("SVDTallMatOp", "perform_op(const Scalar *, Scalar *) const", "y_out", "pointer"),
+       ("SVDWideMatOp", "SVDWideMatOp(ConstGenericMatrix &)", "mat", "reference"),
+       ("SVDWideMatOp", "perform_op(const Scalar *, Scalar *) const", "x_in", "pointer"), ("SVDWideMatOp", "perform_op(const Scalar *, Scalar *) const", "y_out", "pointer"),
+       ("PartialSVDSolver", "PartialSVDSolver(ConstGenericMatrix &, Index, Index)", "mat", "reference")] ∧
+    ((uses.filter (fun u => u.use == "init" && u.member != "m_mat" && u.member != "m_evecs")).map (fun u => (u.cls, u.member, u.args)) =
+      [("SVDTallMatOp", "m_dim", "(std::min)(mat.rows(), mat.cols())"), ("SVDTallMatOp", "m_cache", "mat.rows()"),
+       ("SVDWideMatOp", "m_dim", "(std::min)(mat.rows(), mat.cols())"), ("SVDWideMatOp", "m_cache", "mat.cols()"),
+       ("PartialSVDSolver", "m_m", "mat.rows()"), ("PartialSVDSolver", "m_n", "mat.cols()")]) := by
+  repeat' apply And.intro
+  all_goals decide
+
+/-- **Accessors write only the documented cache.**  `singular_values()` and `scaled_evecs()` are `const` and write nothing (the class
+    has no `mutable` member); `matrix_U` / `matrix_V` write exactly one member, the eigenvector cache `m_evecs`, by the single
+    assignment `m_evecs = m_eigs->eigenvectors()` under the single condition `m_evecs.cols() < 1` — so the cache is keyed on "empty
+    or not" alone (not on `k`, not on which accessor filled it), `m_nconv` is not touched, and what one accessor call returns
+    cannot depend on the arguments of earlier accessor calls (the model's `fillCache`; checked on the real class by the
+    accessor-sequence stream).  The operator classes' only mutable member is the scratch vector `m_cache`, fully overwritten by
+    `perform_op` (`noalias() =`) before it is read. -/
+theorem c16_accessor_writes :
+    methodsOf "PartialSVDSolver" =
+      [("scaled_evecs(Index) const", true, "body"), ("PartialSVDSolver(ConstGenericMatrix &, Index, Index)", false, "body"),
+       ("~PartialSVDSolver()", false, "body"), ("compute(Index, Scalar)", false, "body"), ("singular_values() const", true, "body"),
+       ("matrix_U(Index)", false, "body"), ("matrix_V(Index)", false, "body")] ∧
+    (members.filter (fun m => m.isMutable)).map (fun m => (m.cls, m.name)) = [("SVDTallMatOp", "m_cache"), ("SVDWideMatOp", "m_cache")] ∧
+    writesOf "PartialSVDSolver" "singular_values() const" = [] ∧
+    writesOf "PartialSVDSolver" "scaled_evecs(Index) const" = [] ∧
+    writesOf "PartialSVDSolver" "matrix_U(Index)" = [("m_evecs", "=", "m_eigs->eigenvectors()", "(m_evecs.cols() < 1)", false)] ∧
+    writesOf "PartialSVDSolver" "matrix_V(Index)" = [("m_evecs", "=", "m_eigs->eigenvectors()", "(m_evecs.cols() < 1)", false)] ∧
+    (∀ c ∈ ["SVDTallMatOp", "SVDWideMatOp"], writesOf c "rows() const" = [] ∧ writesOf c "cols() const" = []) ∧
+    writesOf "SVDTallMatOp" "perform_op(const Scalar *, Scalar *) const" = [("m_cache", "noalias=", "m_mat * x", "", false)] ∧
+    writesOf "SVDWideMatOp" "perform_op(const Scalar *, Scalar *) const" = [("m_cache", "noalias=", "m_mat.transpose() * x", "", false)] := by
+  repeat' apply And.intro
+  all_goals decide
+
+/-- **`compute()` resets the cache — the F4 repair d08c57f, pinned.**  The member uses of `compute()` in source order: FIRST the
+    unconditional `m_evecs.resize(0, 0)` (under no `if`, in no loop, before anything that can throw), then `m_eigs->init()`,
+    `m_nconv = m_eigs->compute(SortRule::LargestAlge, maxit, tol)`, `return m_nconv` — exactly `SVD.compute` of the model.  The
+    cache is written nowhere else than: the constructor (`m_evecs(0, 0)`), this reset, and the guarded refill of `matrix_U/V`;
+    `m_nconv` is written by `compute()` only.  Dropping the reset, moving it behind a condition or after `m_eigs->compute`, or
+    refilling under another condition (seed C16-cache-reset-dropped-refetch-on-count) breaks this theorem. -/
+theorem c16_compute_resets_cache :
+    (usesOf "PartialSVDSolver" "compute(Index, Scalar)").map (fun u => (u.member, u.use, u.args, u.guards, u.inLoop)) =
+      [("m_evecs", ".resize", "0, 0", "", false), ("m_eigs", "->init", "", "", false),
+       ("m_nconv", "=", "m_eigs->compute(SortRule::LargestAlge, maxit, tol)", "", false),
+       ("m_eigs", "->compute", "SortRule::LargestAlge, maxit, tol", "", false), ("m_nconv", "read", "return m_nconv", "", false)] ∧
+    writesTo "PartialSVDSolver" "m_evecs" =
+      [("PartialSVDSolver(ConstGenericMatrix &, Index, Index)", "init", "0, 0", "", false),
+       ("compute(Index, Scalar)", ".resize", "0, 0", "", false),
+       ("matrix_U(Index)", "=", "m_eigs->eigenvectors()", "(m_evecs.cols() < 1)", false),
+       ("matrix_V(Index)", "=", "m_eigs->eigenvectors()", "(m_evecs.cols() < 1)", false)] ∧
+    writesTo "PartialSVDSolver" "m_nconv" = [("compute(Index, Scalar)", "=", "m_eigs->compute(SortRule::LargestAlge, maxit, tol)", "", false)] := by
+  repeat' apply And.intro
+  all_goals decide
+
+/-- PartialSVDSolver declares a destructor (it deletes the two owning pointers) and — on the unchanged tree — NO copy operations, so
+    the implicit member-wise copy constructor is still generated: `PartialSVDSolver<> b = a;` compiles and both destructors delete the
+    same operator and inner solver (finding C16-copy, reported with demo and patch: delete the copy operations).  The statement
+    admits exactly the two states "none declared" and "both deleted". -/
+theorem c16_copy_operations :
+    Gen.SVDMem.specialMembers.filter (fun s => s.1 == "PartialSVDSolver" && s.2.1 == "destructor") = [("PartialSVDSolver", "destructor", "body")] ∧
+    (copyOps "PartialSVDSolver" = [] ∨ copyOps "PartialSVDSolver" = [("copy-constructor", "deleted"), ("copy-assignment", "deleted")]) := by
+  decide
+
+end objectmodel
 
 end C16
